@@ -99,12 +99,16 @@ func encodeKey(key any) string {
 	if vals, ok := key.([]any); ok {
 		parts := make([]string, len(vals))
 		for i, v := range vals {
-			parts[i] = encodeOne(v)
+			// escape the separator so a component containing it cannot be read
+			// as two components (("a\x1fs:b","c") vs ("a","b\x1fs:c"))
+			parts[i] = keyPartEscaper.Replace(encodeOne(v))
 		}
 		return strings.Join(parts, "\x1f")
 	}
-	return encodeOne(key)
+	return keyPartEscaper.Replace(encodeOne(key))
 }
+
+var keyPartEscaper = strings.NewReplacer(`\`, `\\`, "\x1f", `\`+"s")
 
 func encodeOne(v any) string {
 	if v == nil {
@@ -141,11 +145,19 @@ func numericKeyFloat(v any) (float64, bool) {
 		return float64(x), true
 	case int32:
 		return float64(x), true
+	case int16:
+		return float64(x), true
+	case int8:
+		return float64(x), true
 	case uint:
 		return float64(x), true
 	case uint64:
 		return float64(x), true
 	case uint32:
+		return float64(x), true
+	case uint16:
+		return float64(x), true
+	case uint8:
 		return float64(x), true
 	}
 	return 0, false
